@@ -11,8 +11,8 @@ the time until the deadline is left to be armed.  The proof goes through `DelayQ
 
 **The clamp and the re-arm.**  `insert_request` arms the timer with `min (deadline - now) MAX_DEADLINE_TIMEOUT`
 (`clampTimeout`) and keeps the rest as the entry's `remainder`; when the timer fires with `remainder ≠ 0`,
-`poll_expired` arms a new timer with (a clamped part of) the remainder instead of failing the request
-(`Client.rearm`).  An earlier version of the code clamped without re-arming; the witness found then (a call with a
+`poll_expired` arms a new timer with (a clamped part of) what is left of the remainder after subtracting how late
+the expiry is handled, instead of failing the request (`Client.rearm`); if nothing is left it fails the request.  An earlier version of the code clamped without re-arming; the witness found then (a call with a
 deadline two clamps away failing after one) is now `C05_far_deadline_witness`: pending after one clamp, failed at the
 deadline.
 
@@ -51,29 +51,31 @@ theorem C05_timer_not_before_deadline (m bufCap tcap : Nat) (coupled : Bool) (op
   rw [this] at hdl; exact ⟨hdl, fun h0 => by omega⟩
 
 /-- **C05 never early, the expiry itself.**  In every reachable state, if polling the `DelayQueue` at the current
-time yields a timer, that timer is due (`whenMs * 1e6 ≤ now`) and belongs to exactly one in-flight entry — the one
-`poll_expired` finds —; if that entry's `remainder` is nonzero the iteration does *not* fail the request (it re-arms
-the timer, or panics in `DelayQueue::insert`), and if it is zero the request's deadline has passed. -/
+time yields a timer, that timer is due (`whenMs * 1e6 ≤ now`; `late = now - whenMs * 1e6` is how late it is handled)
+and belongs to exactly one in-flight entry — the one `poll_expired` finds —, and timer plus `remainder` reach the
+entry's deadline.  If the entry's `remainder` exceeds the lateness the iteration does *not* fail the request (it
+re-arms the timer with what is left, or panics in `DelayQueue::insert`); the iteration fails the request only if
+`remainder ≤ late`, and then the request's deadline has passed. -/
 theorem C05_expiry_only_when_due (m bufCap tcap : Nat) (coupled : Bool) (ops : List COp)
     (c : Sys) (hc : c = ops.foldl applyOp (initSys m bufCap tcap coupled)) (e : DqEntry)
     (h : (c.s.timers.pollExpired c.now).2 = .expired e) :
     e.whenMs * nsPerMs ≤ c.now ∧ ∃ en ∈ c.s.inflight, en.id = e.val ∧ findEntry c.s e.val = some en ∧
-      en.ctx.deadline ≤ c.now + en.remainder ∧
-      (en.remainder ≠ 0 → ∀ s', expireStep c.s c.now ≠ .done s' true) ∧
-      (en.remainder = 0 → en.ctx.deadline ≤ c.now) := by
+      en.ctx.deadline ≤ e.whenMs * nsPerMs + en.remainder ∧
+      (c.now - e.whenMs * nsPerMs < en.remainder → ∀ s', expireStep c.s c.now ≠ .done s' true) ∧
+      (en.remainder ≤ c.now - e.whenMs * nsPerMs → en.ctx.deadline ≤ c.now) := by
   subst hc
   have hi := inv_reach m bufCap tcap coupled ops
-  obtain ⟨en, hen, e1, e2, -⟩ := (hi.t.expired hi.i.inNodup).1 e h
+  obtain ⟨en, hen, e1, e2, e3, -⟩ := (hi.t.expired hi.i.inNodup).1 e h
   have hf : findEntry (ops.foldl applyOp (initSys m bufCap tcap coupled)).s e.val = some en := by
     cases hf : findEntry (ops.foldl applyOp (initSys m bufCap tcap coupled)).s e.val with
     | none => exact absurd e1 (findEntry_none_ne hf en hen)
     | some en' =>
       obtain ⟨hen', hid'⟩ := findEntry_some_mem hf
       rw [eq_of_nodup_map (·.id) hi.i.inNodup hen' hen (by rw [hid', e1])]
-  refine ⟨((DelayQ.pollExpired_spec _ _ hi.t.wf hi.t.timely).some e h).2.1, en, hen, e1, hf, e2, ?_, fun h0 => by omega⟩
-  intro hne s'
-  rw [expireStep_of_expired h hf, if_pos (by simpa using hne)]
-  exact rearm_ne_done_true _ _ _ _ _ _
+  refine ⟨e3, en, hen, e1, hf, e2, ?_, fun h0 => by omega⟩
+  intro hlt s'
+  rw [expireStep_of_expired h hf, if_pos (by simp only [bne_iff_ne, ne_eq]; omega)]
+  exact rearm_ne_done_true _ _ _ _ _ _ _
 
 /-- The *never early* clause of `checkC05` (its first test), as a monitor of its own. -/
 def checkC05NeverEarly (b : Book) (last : C05St) : CEv → C05St × Option String
@@ -175,6 +177,21 @@ theorem C05_far_deadline_witness :
       (fun ev => match ev with | .obs (.resolved _ .deadline _) => true | _ => false) = false := by decide
   rw [List.any_eq_false] at this
   exact this _ hm (by rfl)
+
+/-- a call whose deadline is three clamps away is polled at 0 and then not before its deadline -/
+def c05LateOps : List COp :=
+  [.call 0 (3 * clampNs) ⟨1, .given 1, true⟩ 7, .pollCall 0, .pollDispatch, .advance (3 * clampNs), .pollDispatch,
+   .pollCall 0]
+
+set_option maxRecDepth 100000 in
+/-- **A late dispatch does not postpone the deadline.**  The timer armed at 0 (one clamp) is handled two clamps
+late, which uses up the entry's remainder (two clamps): `poll_expired` fails the request right away and the call
+resolves with `DeadlineExceeded` at exactly its deadline `3 * clampNs`.  (The re-arm as first written ignored the
+lateness and would have armed another full clamp here.) -/
+theorem C05_late_dispatch_witness :
+    CEv.obs (.resolved 0 .deadline (3 * clampNs)) ∈ trace (initSys 1 1 1 true) c05LateOps ∧
+    (c05LateOps.foldl applyOp (initSys 1 1 1 true)).s.timers.len = 0 ∧
+    (monC05NeverEarly (trace (initSys 1 1 1 true) c05LateOps)).ok = true := by decide
 
 /-- The model variant "clamp without re-arm" (the code between the two fixes): every entry forgets its remainder. -/
 def forgetRemainders (c : Sys) : Sys :=
